@@ -702,6 +702,10 @@ class Interp:
                 return _or([t == k for k in container])
             elems = list(container.keys()) if isinstance(container, dict) else list(container)
             return _or([self.eq(item, e) for e in elems])
+        if isinstance(container, (SEnum, enum.Flag)) and isinstance(item, (enum.Flag, SEnum)):
+            # flag containment: all bits of `item` are set in `container`
+            both = self._int_binop(ast.BitAnd(), container, item)
+            return self.eq(both, SInt(int_term(item)) if isinstance(item, SEnum) else int(item))
         if isinstance(container, enum.EnumMeta):
             # `x in SomeEnum` : membership by value
             if isinstance(item, SEnum) and item.cls is container:
